@@ -6,6 +6,7 @@ from ..errors import AnalysisError
 from ..px import OK, PX, RAISE, Outcomes
 from ..pxv import Obj, Sym
 from ..te import ClassRef, Member, TypeRef
+from .util import anchor_attrs
 from .util import const, fut, same_class, self_obj
 
 EZ = "bellows.ezsp"
@@ -53,6 +54,7 @@ def r09_1(ctx):
     """After every reset framing falls back to the legacy format: EZSP.reset stops EZSP, awaits the gateway
     reset, then installs the version-4 handler *and* records version 4 as the negotiated version, and only then
     marks EZSP running; if the gateway reset fails EZSP stays stopped. connect() installs the version-4 handler."""
+    anchor_attrs(ctx, "EZSP", "_ezsp_version", "_protocol", "_gw", "_ezsp_event")
     repo = ctx.repo
     f = repo.func(f"{EZ}:EZSP.reset")
     ctx.fn(f)
